@@ -46,7 +46,7 @@ vars == <<P, doms, ne, upd, trig, prev, pc, ret, bcst, stats, yielded, best, sh,
 Top == Len(doms)
 Box == doms[Top]
 Stat(i) == [stats EXCEPT ![i] = @ + 1]
-Ghost0 == [cnt |-> [i \in 1..13 |-> 0], fpass |-> 0, lvls |-> 0, passIn |-> <<>>, passEn |-> <<>>, shIn |-> <<>>]
+Ghost0 == [cnt |-> [i \in 1..13 |-> 0], fpass |-> 0, lvls |-> 0, passIn |-> <<>>, passEn |-> <<>>, shIn |-> <<>>, call |-> 1]
 Sh0 == [bound |-> 0, has |-> TRUE, start |-> 0, dom |-> -1, base |-> <<>>]
 
 Init ==
@@ -233,7 +233,20 @@ ShJudge ==     \* the probe's pass returned: keep the alternative or undo, then 
         /\ pc' = "shloop"
   /\ UNCHANGED <<P, prev, ret, bcst, yielded, best>>
 
-Next == CallConsistency \/ BCReturn \/ Filter \/ SearchBound \/ SearchBranch \/ SearchFail
+(* ---- a further call on the SAME solver object (P.cfg.calls = 2) ---- *)
+\* BacktrackSolver.solve() / optimize() begin with restart(): root level, initial domains, every constraint enabled
+\* and queued - a call never continues the search of an earlier call (repo commit 1385008; before it the second call
+\* started from the leftover stacks and queue: mutated-spec control "second-call-without-restart").  The counters
+\* are observed relative to the start of the call (the harness zeroes them in between), hence stats and ghost restart.
+CallAgain ==
+  /\ pc = "done" /\ P.cfg.calls = 2 /\ g.call = 1
+  /\ doms' = << P.doms >> /\ ne' = << AllTrue(NProp(P)) >> /\ upd' = << >> /\ trig' = AllTrue(NProp(P))
+  /\ prev' = 0 /\ pc' = "consistency" /\ ret' = "search" /\ bcst' = -1
+  /\ stats' = [i \in 1..13 |-> 0] /\ yielded' = << >> /\ best' = << >> /\ sh' = Sh0
+  /\ g' = [Ghost0 EXCEPT !.call = 2]
+  /\ UNCHANGED P
+
+Next == CallAgain \/ CallConsistency \/ BCReturn \/ Filter \/ SearchBound \/ SearchBranch \/ SearchFail
         \/ Yield \/ ResumeEnum \/ Exhausted \/ Incumbent \/ OptExhausted
         \/ ShLoop \/ ShMain \/ ShPick \/ ShJudge
 Spec == Init /\ [][Next]_vars
@@ -252,6 +265,7 @@ Never_Backtrack     == stats[10] = 0
 Never_ShavingShaves == stats[4] = 0
 Never_PassFails     == bcst # 0
 Never_ThreeLevels   == Len(doms) < 3
+Never_SecondCall    == g.call = 1
 
 ---------------------------------------------------------------------------
 (* Properties of the design, checked exhaustively on the families           *)
@@ -311,5 +325,5 @@ C17_Solutions == P.cfg.mode = "solve" => stats[SOLNB] = Len(yielded) + (IF pc = 
 C19_Fits == Top <= P.cfg.height + 1 /\ (pc \in {"consistency", "search", "solution", "resume"} => Top <= P.cfg.height)
 C19_ErrorOnlyWhenFull == pc = "CapacityError" => Top + 2 > P.cfg.height
 \* termination (checked under FairSpec on the reduced family)
-Terminates == <>(pc \in {"done", "BranchOnNothing", "CapacityError"})
+Terminates == <>(pc \in {"BranchOnNothing", "CapacityError"} \/ (pc = "done" /\ g.call = P.cfg.calls))
 =============================================================================
